@@ -70,18 +70,30 @@ Proof.
   right. right. split; [exact Hil|]. eapply term_at_same; [exact Hci | apply Ht; exact Hil].
 Qed.
 
-Lemma bsinv_patch : forall s j s1,
-  bsinv init s -> patch init s j (IL s) = Ok s1 -> term_last s -> ilo < IL s -> bsinv init s1.
+Lemma jref_ok_patch : forall s j s1 c,
+  jref_ok init s c -> patch init s j (IL s) = Ok s1 -> term_last s -> ilo < IL s -> jref_ok init s1 c.
 Proof.
-  intros s j s1 Hb Hp Ht Hil k io j' Hk Hr.
+  intros s j s1 c [Hrange Hx] Hp Ht Hil.
   destruct (patch_spec _ _ _ _ Hp) as [Hge [Hlt [Hci [_ [Hlen [Hnew Hold]]]]]].
-  rewrite Hci in Hk. destruct (Hb k io j' Hk Hr) as [Hrange Hx].
-  destruct (Nat.eq_dec j' j) as [Heq|Hne].
-  - subst j'. eapply jref_patch; eauto. lia.
+  destruct (Nat.eq_dec c j) as [Heq|Hne].
+  - subst c. eapply jref_patch; eauto. lia.
   - split; [unfold jl in *; rewrite Hlen; exact Hrange|]. intros x Hn.
     rewrite Hold in Hn by lia. destruct (Hx x Hn) as [A|[A|[A B]]]; auto.
     right. right. split; [exact A | eapply term_at_same; eauto].
 Qed.
+
+Lemma bsinv_patch : forall s j s1,
+  bsinv init s -> patch init s j (IL s) = Ok s1 -> term_last s -> ilo < IL s -> bsinv init s1.
+Proof.
+  intros s j s1 [Hb H0] Hp Ht Hil.
+  destruct (patch_spec _ _ _ _ Hp) as [_ [_ [Hci _]]].
+  split.
+  - intros k io j' Hk Hr. rewrite Hci in Hk. eapply jref_ok_patch; eauto.
+  - eapply jref_ok_patch; eauto.
+Qed.
+
+Lemma cont_ok_same : forall s s' c, ci s' = ci s -> cont_ok init s c -> cont_ok init s' c.
+Proof. intros s s' c H [Hc|[k Hk]]; [left; exact Hc | right; exists k; rewrite H; exact Hk]. Qed.
 
 (* ---- the end instructions of a body ---- *)
 Lemma is_term_end : is_terminator (I_EndExpression, ONone) = true. Proof. reflexivity. Qed.
@@ -180,31 +192,47 @@ Qed.
 Lemma in_rev_iff : forall A (l : list A) x, In x (rev l) <-> In x l.
 Proof. intros. symmetry. apply in_rev. Qed.
 
+Definition ci_ext (s s' : cst) : Prop := exists a, ci s' = ci s ++ a.
+
+Lemma ci_ext_refl : forall s, ci_ext s s. Proof. intros s. exists []. rewrite app_nil_r. reflexivity. Qed.
+Lemma ci_ext_trans : forall a b c, ci_ext a b -> ci_ext b c -> ci_ext a c.
+Proof. intros a b c [x Hx] [y Hy]. exists (x ++ y). rewrite Hy, Hx, app_assoc. reflexivity. Qed.
+Lemma ext_ci_ext : forall s s', ext s s' -> ci_ext s s'.
+Proof. intros s s' [a [b [c [Ha _]]]]. exists a. exact Ha. Qed.
+Lemma cont_ok_ci_ext : forall s s' c, ci_ext s s' -> cont_ok init s c -> cont_ok init s' c.
+Proof.
+  intros s s' c [a Ha] [Hc|[k Hk]]; [left; exact Hc|]. right. exists k.
+  rewrite Ha. rewrite nth_error_app1; [exact Hk|]. apply nth_error_Some. rewrite Hk. discriminate.
+Qed.
+
 Definition body_post (H : list nat) (s s' : cst) : Prop :=
-  jinv init H s' /\ bsinv init s' /\ term_last s' /\ IL s < IL s' /\ strict s' /\ JL s <= JL s'.
+  jinv init H s' /\ bsinv init s' /\ term_last s' /\ IL s < IL s' /\ strict s' /\ JL s <= JL s' /\ ci_ext s s'.
 
 Lemma fold_spec : forall f,
   (forall p s s' H, run_body init lit_ok f p s = Ok s' -> pend_live p -> jlo < p_jump p < JL s ->
+     cont_ok init s (p_containing p) ->
      jinv init (p_jump p :: H) s -> bsinv init s -> term_last s -> ilo < IL s -> body_post H s s') ->
   forall l s0 s' H,
     fold_bodies init lit_ok f l (Ok s0) = Ok s' -> Forall pend_live l ->
-    Forall (fun q => jlo < p_jump q < JL s0) l ->
+    Forall (fun q => jlo < p_jump q < JL s0) l -> Forall (fun q => cont_ok init s0 (p_containing q)) l ->
     jinv init (map p_jump l ++ H) s0 -> bsinv init s0 -> term_last s0 -> ilo < IL s0 ->
-    jinv init H s' /\ bsinv init s' /\ term_last s' /\ IL s0 <= IL s' /\ (l <> [] -> strict s') /\ JL s0 <= JL s'.
+    jinv init H s' /\ bsinv init s' /\ term_last s' /\ IL s0 <= IL s' /\ (l <> [] -> strict s') /\ JL s0 <= JL s' /\ ci_ext s0 s'.
 Proof.
-  intros f Hrun. induction l as [|q l IHl]; intros s0 s' H Hf Hlive Hrng Hj Hb Ht Hil.
-  - cbn in Hf. inversion Hf; subst. cbn [map app] in Hj. splits; auto. intros Hc; congruence.
+  intros f Hrun. induction l as [|q l IHl]; intros s0 s' H Hf Hlive Hrng Hcont Hj Hb Ht Hil.
+  - cbn in Hf. inversion Hf; subst. cbn [map app] in Hj. splits; auto using ci_ext_refl. intros Hc; congruence.
   - unfold fold_bodies in Hf. cbn [fold_left bind] in Hf.
     destruct (run_body init lit_ok f q s0) as [sq|e| |] eqn:Eq.
     2:{ destruct (fold_bodies_err init lit_ok f l) as [_ [He' _]]. unfold fold_bodies in He'. rewrite He' in Hf. discriminate. }
     2:{ destruct (fold_bodies_err init lit_ok f l) as [_ [_ Hp']]. unfold fold_bodies in Hp'. rewrite Hp' in Hf. discriminate. }
     2:{ destruct (fold_bodies_err init lit_ok f l) as [Ho' _]. unfold fold_bodies in Ho'. rewrite Ho' in Hf. discriminate. }
     inversion Hlive as [|? ? Hq Hlive']; subst. inversion Hrng as [|? ? Hqr Hrng']; subst.
+    inversion Hcont as [|? ? Hqc Hcont']; subst.
     cbn [map app] in Hj.
-    destruct (Hrun q s0 sq (map p_jump l ++ H) Eq Hq Hqr Hj Hb Ht Hil) as [Hj1 [Hb1 [Ht1 [Hil1 [Hst1 Hjl1]]]]].
-    destruct (IHl sq s' H Hf Hlive') as [Hj2 [Hb2 [Ht2 [Hil2 [Hst2 Hjl2]]]]]; auto; try lia.
+    destruct (Hrun q s0 sq (map p_jump l ++ H) Eq Hq Hqr Hqc Hj Hb Ht Hil) as [Hj1 [Hb1 [Ht1 [Hil1 [Hst1 [Hjl1 Hext1]]]]]].
+    destruct (IHl sq s' H Hf Hlive') as [Hj2 [Hb2 [Ht2 [Hil2 [Hst2 [Hjl2 Hext2]]]]]]; auto; try lia.
     { eapply Forall_impl; [|exact Hrng']. cbv beta. intros. lia. }
-    splits; auto; try lia.
+    { eapply Forall_impl; [|exact Hcont']. cbv beta. intros a Ha. eapply cont_ok_ci_ext; eauto. }
+    splits; auto; try lia; [| eapply ci_ext_trans; eauto ].
     intros _. destruct l as [|q' l'].
     + cbn in Hf. inversion Hf; subst. exact Hst1.
     + apply Hst2. discriminate.
@@ -212,9 +240,10 @@ Qed.
 
 Lemma run_body_spec : forall fuel p s s' H,
   run_body init lit_ok fuel p s = Ok s' -> pend_live p -> jlo < p_jump p < JL s ->
+  cont_ok init s (p_containing p) ->
   jinv init (p_jump p :: H) s -> bsinv init s -> term_last s -> ilo < IL s -> body_post H s s'.
 Proof.
-  induction fuel as [|f IH]; intros p s s' H Hrun Hlive Hrng Hj Hb Ht Hil; [discriminate|].
+  induction fuel as [|f IH]; intros p s s' H Hrun Hlive Hrng Hcont Hj Hb Ht Hil; [discriminate|].
   cbn [run_body] in Hrun.
   apply bind_ok in Hrun. destruct Hrun as [s1 [Hpatch Hrun]].
   apply bind_ok in Hrun. destruct Hrun as [[[s2 ps] its] [Hinl Hrun]].
@@ -224,12 +253,13 @@ Proof.
   assert (HJL1 : JL s1 = JL s) by (unfold jl; rewrite Hlen; reflexivity).
   pose proof (jinv_patch _ _ _ _ Hj Hpatch (proj1 Hrng) Hil) as Hj1.
   pose proof (bsinv_patch _ _ _ Hb Hpatch Ht Hil) as Hb1.
-  pose proof (jref_patch _ _ _ Hpatch Ht Hil (proj2 Hrng)) as Hrj1.
+  assert (Hcont1 : cont_ok init s1 (cx_containing (plain (p_containing p)))) by (cbn; eapply cont_ok_same; eauto).
   (* the body's inline code *)
   assert (Hits : its = []) by (apply (proj1 (inl_items init lit_ok _ _ _ _ _ _ _ Hinl)); reflexivity).
   subst its.
   pose proof (inl_jinv init lit_ok _ Hdrop _ _ _ _ _ _ Hinl H Hj1) as Hj2.
-  pose proof (inl_bsinv init lit_ok _ _ _ _ _ _ _ Hinl Hb1 Hrj1) as Hb2.
+  pose proof (inl_bsinv init lit_ok _ _ _ _ _ _ _ Hinl Hb1 Hcont1) as Hb2.
+  pose proof (inl_pend_cont init lit_ok _ _ _ _ _ _ _ Hinl Hcont1) as Hpc2.
   destruct (inl_live init lit_ok _ (conj Hdrop Hempty) _ _ _ _ _ _ Hinl) as [Hlive2 _].
   destruct (inl_pend_range init lit_ok _ _ _ _ _ _ _ Hinl) as [Hrng2 _].
   pose proof (inl_ext init lit_ok _ _ _ _ _ _ _ Hinl) as E12.
@@ -246,13 +276,18 @@ Proof.
     - assert (IL s2 < IL s3); [|lia]. apply Hgrow3. rewrite Hd. discriminate. }
   assert (Hne1 : cj s1 <> []) by (destruct Hj1; assumption).
   assert (HJ1 : jlo < JL s1) by (unfold jl; destruct (cj s1); [congruence | cbn; lia]).
+  assert (Hce13 : ci_ext s s3).
+  { eapply ci_ext_trans; [exists []; rewrite app_nil_r; exact Hci |].
+    eapply ci_ext_trans; [apply ext_ci_ext; exact E12 | apply ext_ci_ext; exact E23]. }
   (* the bodies it registered, LIFO *)
-  destruct (fold_spec f IH (rev ps) s3 s' H Hrun) as [Hj4 [Hb4 [Ht4 [Hil4 [Hst4 Hjl4]]]]]; auto.
+  destruct (fold_spec f IH (rev ps) s3 s' H Hrun) as [Hj4 [Hb4 [Ht4 [Hil4 [Hst4 [Hjl4 Hce4]]]]]]; auto.
   - apply Forall_rev. exact Hlive2.
   - apply Forall_rev. eapply Forall_impl; [|exact Hrng2]. cbv beta. intros q Hq. lia.
+  - apply Forall_rev. eapply Forall_impl; [|exact Hpc2]. cbv beta. intros q Hq.
+    eapply cont_ok_ext; [exact E23 | exact Hq].
   - eapply jinv_mono; [|exact Hj3]. unfold incl, holes. intros z. rewrite map_rev, !in_app_iff, in_rev_iff. cbn [map In]. tauto.
   - lia.
-  - unfold body_post. splits; auto; try lia.
+  - unfold body_post. splits; auto; try lia; [| eapply ci_ext_trans; eauto ].
     destruct ps as [|q0 ps0].
     + (* no body registered: every entry was written before this body's code *)
       change (Ok s3 = Ok s') in Hrun. inversion Hrun; subst s'.
@@ -261,7 +296,6 @@ Proof.
       destruct Hj1 as [_ Hj1]. destruct (Hj1 k x Hk) as [[_ A]|[[_ A]|[_ [A _]]]]; subst; try lia.
     + apply Hst4. intros Hc. apply (f_equal (@length _)) in Hc. rewrite rev_length in Hc. discriminate.
 Qed.
-
 
 (* ---- the whole build ---- *)
 Variable nodes : list pnode.
@@ -281,14 +315,17 @@ Proof.
   assert (Hj1 : jinv init [] s1).
   { split; [unfold s1; cbn; discriminate|]. intros k x Hk. unfold s1 in Hk. cbn in Hk.
     destruct k as [|k]; cbn in Hk; [inversion Hk; left; split; [reflexivity | unfold il; cbn; lia] | destruct k; discriminate]. }
-  assert (Hb1 : bsinv init s1) by (intros k io j Hk; unfold s1 in Hk; cbn in Hk; destruct k; discriminate).
   assert (Hrj1 : jref_ok init s1 jlo).
   { split; [lia|]. intros x Hx. rewrite Nat.sub_diag in Hx. unfold s1 in Hx. cbn in Hx. inversion Hx.
     right. left. unfold il. cbn. lia. }
+  assert (Hb1 : bsinv init s1).
+  { split; [|exact Hrj1]. intros k io j Hk. unfold s1 in Hk. cbn in Hk. destruct k; discriminate. }
+  assert (Hcont1 : cont_ok init s1 (cx_containing (plain jlo))) by (left; reflexivity).
   assert (Hits : its = []) by (apply (proj1 (inl_items init lit_ok _ _ _ _ _ _ _ Hinl)); reflexivity).
   subst its.
   pose proof (inl_jinv init lit_ok _ Hdrop _ _ _ _ _ _ Hinl [] Hj1) as Hj2.
-  pose proof (inl_bsinv init lit_ok _ _ _ _ _ _ _ Hinl Hb1 Hrj1) as Hb2.
+  pose proof (inl_bsinv init lit_ok _ _ _ _ _ _ _ Hinl Hb1 Hcont1) as Hb2.
+  pose proof (inl_pend_cont init lit_ok _ _ _ _ _ _ _ Hinl Hcont1) as Hpc2.
   destruct (inl_live init lit_ok _ (conj Hdrop Hempty) _ _ _ _ _ _ Hinl) as [Hlive2 _].
   destruct (inl_pend_range init lit_ok _ _ _ _ _ _ _ Hinl) as [Hrng2 _].
   pose proof (inl_ext init lit_ok _ _ _ _ _ _ _ Hinl) as E12.
@@ -308,9 +345,11 @@ Proof.
       unfold empty_after_end in Hk1. rewrite Es, Hl in Hk1. cbn in Hk1. discriminate.
     - assert (IL s1 < IL s2); [|lia].
       apply (proj2 (inl_grow init lit_ok _ _ _ _ _ _ _ Hinl)); [reflexivity | exact Es]. }
-  destruct (fold_spec (size t) (run_body_spec (size t)) (rev ps) s3 s4 [] Hfold) as [Hj4 [Hb4 [Ht4 [Hil4 [Hst4 Hjl4]]]]]; auto.
+  destruct (fold_spec (size t) (run_body_spec (size t)) (rev ps) s3 s4 [] Hfold) as [Hj4 [Hb4 [Ht4 [Hil4 [Hst4 [Hjl4 _]]]]]]; auto.
   { apply Forall_rev. exact Hlive2. }
   { apply Forall_rev. eapply Forall_impl; [|exact Hrng2]. cbv beta. intros q Hq. lia. }
+  { apply Forall_rev. eapply Forall_impl; [|exact Hpc2]. cbv beta. intros q Hq.
+    eapply cont_ok_ext; [exact E23 | exact Hq]. }
   { eapply jinv_mono; [|exact Hj3]. unfold incl, holes. intros z. rewrite map_rev, !in_app_iff, in_rev_iff. cbn [map In]. tauto. }
   assert (Hstrict : strict s4).
   { destruct ps as [|q0 ps0].
@@ -331,6 +370,7 @@ Proof.
     + destruct k; [lia|]. apply andb_true_iff. split; apply Nat.ltb_lt; lia.
   - (* body starts *)
     intros k io j x Hk Hr Hjx Hlt. unfold code_of_compile in *. cbn [k_instrs k_jumps fst] in *.
+    destruct Hb4 as [Hb4 _].
     destruct (Hb4 k io j Hk Hr) as [Hrng Hx].
     unfold jump_at, WfCode.jlo in Hjx. cbn [k_jumps] in Hjx.
     destruct (Nat.ltb j jlo) eqn:Ej; [discriminate|].
